@@ -393,8 +393,12 @@ def _prepare(size, k, cfg):
     return None, P, G, z
 
 
-def _op_estimate(size, k, cfg, which, x0=None, prep=None):
-    """which in {'MAP','ML'}: returns (status, kinds, obs); status in built-refused / refused / judged."""
+def _op_estimate(size, k, cfg, which, x0=None, prep=None, judge_failed=False):
+    """which in {'MAP','ML'}: returns (status, kinds, obs); status in built-refused / refused / judged.
+
+    judge_failed=True (used only while reducing an already established violation to its necessary facets)
+    also judges points that come with info['success'] false, so that the reduction does not stop at
+    configurations where the optimiser happens to notice its own trouble."""
     bad, P, G, z = prep if prep is not None else _prepare(size, k, cfg)
     if bad:
         return bad, {}, None
@@ -408,7 +412,7 @@ def _op_estimate(size, k, cfg, which, x0=None, prep=None):
     except Exception as e:
         return "refused:" + type(e).__name__, {}, None
     info = getattr(xs, "info", None)
-    if _refused_by_solver(info):
+    if _refused_by_solver(info) and not judge_failed:
         return "refused:solver-reports-failure", {}, None
     route = _route(info)
     kinds, met = _judge(np.asarray(xs), P.n, ref.logd, ref.grad, ref.sig, ref.Hn, route,
@@ -568,7 +572,7 @@ def _eval_lg(cell):
                 if kinds:
                     map_bad = obs["returned"]
                     _report(res, size, k, cfg, "closed-form" if st.endswith("direct") else "optimiser",
-                            "BayesianProblem.MAP", kinds, obs, lambda c: _op_estimate(size, k, c, "MAP"))
+                            "BayesianProblem.MAP", kinds, obs, lambda c: _op_estimate(size, k, c, "MAP", judge_failed=True))
                 elif res.sample is None:
                     res.sample = {"config": cfg, "MAP": obs["returned"], "closed_form": obs["reference"],
                                   "logd": obs["logd_returned"], "metrics": obs["metrics"]}
@@ -619,7 +623,7 @@ def _eval_ml(cell):
             res.transitions += 4 * cell["n"]
             if kinds:
                 _report(res, size, k, cfg, "optimiser", "BayesianProblem.ML", kinds, obs,
-                        lambda c, x0=x0: _op_estimate(size, k, c, "ML", x0=x0), start=si)
+                        lambda c, x0=x0: _op_estimate(size, k, c, "ML", x0=x0, judge_failed=True), start=si)
             elif res.sample is None:
                 res.sample = {"config": cfg, "ML": obs["returned"], "closed_form": obs["reference"],
                               "metrics": obs["metrics"]}
@@ -644,7 +648,7 @@ def _eval_lgopt(cell):
         res.transitions += 4 * cell["n"]
         if kinds:
             _report(res, size, k, cfg, "optimiser", "BayesianProblem.MAP", kinds, obs,
-                    lambda c: _op_estimate(size, k, c, "MAP"))
+                    lambda c: _op_estimate(size, k, c, "MAP", judge_failed=True))
         else:
             res.sample = {"config": cfg, "MAP": obs["returned"], "closed_form": obs["reference"],
                           "metrics": obs["metrics"]}
